@@ -294,6 +294,7 @@ var planNames = []string{
 	"requeue-overdue",  // a task started by the overdue path re-queues itself
 	"sched-while-run",  // Schedule from outside while the task runs
 	"cancel-scheduled", // Cancel while the task waits in the schedule
+	"overdue-parked",   // overdue start parked at its entry while the schedule handler makes its next round
 }
 
 func genPlan(r *vlib.Rand, id int, name string) Hist {
